@@ -263,8 +263,11 @@ func c19Handshakes(u *vfUnit) {
 var c19Supported = [][2]string{{"hardlink@openssh.com", "1"}, {"posix-rename@openssh.com", "1"}, {"statvfs@openssh.com", "2"}}
 
 // c19VersionBytes connects a raw driver to a fresh server and returns the VERSION reply body.
-func c19VersionBytes(u *vfUnit, kind vfKind) []byte {
-	cfg := vfSrvCfg{Kind: kind}
+func c19VersionBytes(u *vfUnit, kind vfKind) []byte { return c19VersionBytesLate(u, kind, nil) }
+
+// c19VersionBytesLate: late (optional) runs between the construction of the server and the start of Serve.
+func c19VersionBytesLate(u *vfUnit, kind vfKind, late func()) []byte {
+	cfg := vfSrvCfg{Kind: kind, BeforeServe: late}
 	if kind == vfRS {
 		cfg.H = InMemHandler()
 	}
@@ -322,6 +325,17 @@ func c19Config(u *vfUnit) {
 			got := c19VersionBytes(u, kind)
 			if !bytes.Equal(got, wantBody) {
 				u.Violation("version-bytes:"+kind.String(), fmt.Sprintf("configured %v: %s sent VERSION %x, expected %x", names, kind, vfTrimB(got, 200), vfTrimB(wantBody, 200)), map[string]any{"configured": names})
+			}
+			// the same list configured after the server value was constructed, before its session starts: what
+			// counts is what is configured when the handshake happens
+			SetSFTPExtensions("statvfs@openssh.com")
+			if len(names) == 1 && names[0] == "statvfs@openssh.com" {
+				SetSFTPExtensions("hardlink@openssh.com")
+			}
+			got = c19VersionBytesLate(u, kind, func() { SetSFTPExtensions(names...) })
+			u.Count("configurations_made_after_construction", 1)
+			if !bytes.Equal(got, wantBody) {
+				u.Violation("version-bytes-configured-after-construction:"+kind.String(), fmt.Sprintf("configured %v after constructing the server and before Serve: %s sent VERSION %x, expected %x", names, kind, vfTrimB(got, 200), vfTrimB(wantBody, 200)), map[string]any{"configured": names})
 			}
 		}
 		// an invalid request (bad name at each position) changes nothing
